@@ -124,6 +124,13 @@ func c10Drivers() []*icCfg {
 	return []*icCfg{
 		{Name: "D1-writers-full-queue", O: q1, Scripts: [][]icOp{{S(1), S(2)}, {S(3)}, {C}}, Post: epi},
 		{Name: "D1b-three-writers", O: q1, Scripts: [][]icOp{{S(1)}, {S(2)}, {S(3)}, {C}}, Post: epi},
+		// the same for every other call that queues an event: Delete, the hybrid Delete, a load, a promotion from the secondary tier
+		{Name: "D1d-deleters-full-queue", O: q1, Pre: []icOp{S(1), S(2), S(3), W}, Scripts: [][]icOp{{D(1), D(2)}, {D(3)}, {C}}, Post: epi},
+		{Name: "D1h-hybrid-deleters-full-queue", O: q1, Hy: &hyIcCfg{Workers: 1, Prob: 1}, Pre: []icOp{S(1), S(2), S(3), W},
+			Scripts: [][]icOp{{{Kind: "hdel", K: 1}, {Kind: "hdel", K: 2}}, {C}}, Post: []icOp{{Kind: "est"}, G(1), S(3), {Kind: "len"}, W}},
+		{Name: "D1L-loaders-full-queue", O: q1, Loading: true, LoadCost: 1, Scripts: [][]icOp{{L(1), L(2)}, {C}}, Post: epiL},
+		{Name: "D1p-hybrid-promotions-full-queue", O: hOpts{MaxSize: 1, ChanSize: 1, BufSize: 1}, Hy: &hyIcCfg{Workers: 1, Prob: 1}, Pre: []icOp{S(1), W, S(2), W, S(3), W},
+			Scripts: [][]icOp{{{Kind: "hget", K: 1}, {Kind: "hget", K: 2}}, {C}}, Post: []icOp{{Kind: "est"}, G(1), S(3), {Kind: "len"}, W}},
 		{Name: "D2-wait-vs-close", O: q2, Scripts: [][]icOp{{S(1), W}, {C}}, Post: epi},
 		{Name: "D2b-close-then-wait", O: q2, Pre: []icOp{S(1)}, Scripts: [][]icOp{{C, W}, {W}}, Post: epi},
 		{Name: "D3-readers", O: q2, Pre: []icOp{S(1), S(2)}, Scripts: [][]icOp{{G(1), {Kind: "range"}}, {{Kind: "len"}, D(2)}, {C}}, Post: epi},
